@@ -30,6 +30,8 @@ CLAIMED = {
             'inlined monitor return the same values for all samples, for the four monitor kinds and after pastify()'),
     'C10': ('6.C10', 'pre-reset history (k symbolic updates) and post-reset inputs are symbolic; z3 shows the reset object and a fresh object return equal values and '
             'equal sampling counters; discrete and dense time, sub-specifications, pastified specifications, reset before the first update'),
+    'C11': ('6.C11', 'after each call the caller containers are compared with a structural snapshot on every path; repeated and interleaved calls are compared with '
+            'solo runs by z3 for all values; the hash-seed clause is decided by enumerating seeds in sub-processes (stated as enumeration, not solver-decided)'),
 }
 NA = {
     'C14': 'the quantifier ranges over strings and every string is consumed by the ANTLR4 ATN interpreter, which cannot be encoded or '
